@@ -123,7 +123,13 @@ func Generate(sc *core.Scratch, moqBin string, variants []Variant) (*Module, err
 			for _, c := range Corpus {
 				args = append(args, c.Arg())
 			}
-			o, err := core.Run(m.Dir, 2*time.Minute, core.GoEnv(), moqBin, args...)
+			var o string
+			var err error
+			for attempt := 0; attempt < 3; attempt++ { // the go command may fail transiently on a loaded machine; a defect fails every time
+				if o, err = core.Run(m.Dir, 2*time.Minute, core.GoEnv(), moqBin, args...); err == nil {
+					break
+				}
+			}
 			mu.Lock()
 			defer mu.Unlock()
 			m.GenLog = append(m.GenLog, "moq "+strings.Join(args, " "))
@@ -238,6 +244,10 @@ func (m *Module) Build(race bool) (string, string, error) {
 	}
 	args = append(args, "./drv")
 	out, err := core.Run(m.Dir, 10*time.Minute, core.GoEnv(), "go", args...)
+	if err != nil && !strings.Contains(out, "mocks_gen.go") {
+		// not a compile error in generated code: try once more
+		out, err = core.Run(m.Dir, 10*time.Minute, core.GoEnv(), "go", args...)
+	}
 	return bin, out, err
 }
 
